@@ -436,6 +436,11 @@ class BuiltinsMixin(object):
         return None
 
     def contains(self, container, item, path, node):
+        if isinstance(container, Obj) and \
+                path.heap[container.oid].kind in ('dict', 'set'):
+            fk = self.fork_on_key(container, item, path)
+            if fk is not None and (len(fk) > 1 or fk[0][1] is not None):
+                return [(q, Const(i is not None)) for (q, i) in fk]
         if isinstance(container, Obj):
             h = path.heap[container.oid]
             if h.kind in ('list', 'set', 'dict') and h.concrete():
@@ -731,8 +736,20 @@ class BuiltinsMixin(object):
         for (p, vs) in self.eval_seq([node.value, node.slice], fr, path):
             if isinstance(vs, Raise):
                 out.append((p, vs))
+                continue
+            base, idx = vs
+            fk = None
+            if isinstance(base, Obj) and p.heap[base.oid].kind == 'dict':
+                fk = self.fork_on_key(base, idx, p)
+            if fk is not None and (len(fk) > 1 or fk[0][1] is not None):
+                for (q, i) in fk:
+                    if i is None:
+                        out.append((q, Raise(New(ExtClass('KeyError'),
+                                                 (idx,)), node)))
+                    else:
+                        out.append((q, q.heap[base.oid].parts[i].val))
             else:
-                out.append((p, self.get_item(vs[0], vs[1], p, node)))
+                out.append((p, self.get_item(base, idx, p, node)))
         return out
 
     def ex_Slice(self, node, fr, path):
